@@ -499,10 +499,32 @@ def run(ctx):
             nw = int(rng.integers(1, 6))
             wires = num.wire_labels(rng, nw)
             single = rng.random() < 0.3
-            ops = single_op(qp, rng, g17, gen, wires) if single else circuit(qp, rng, g17, gen, wires)
+            workwires = api == "transform" and rng.random() < 0.14
+            if workwires:
+                # operators whose rules can borrow work wires: multi-controlled gates with >= 3 controls, Toffoli-based target sets
+                nw = int(rng.integers(4, 7))
+                wires = num.wire_labels(rng, nw)
+                k = int(rng.integers(3, nw))
+                ws = g17.some_wires(rng, wires, k + 1)
+                cv = g17.ctrl_values(rng, k, 0.5)
+                r = rng.random()
+                if r < 0.6:
+                    ops = [qp.MultiControlledX(wires=ws, control_values=cv)]
+                elif r < 0.8:
+                    ops = [qp.ctrl(g17.gate(qp, rng, g17.pick(rng, ["PauliZ", "S", "RX", "PhaseShift", "Hadamard", "PauliY"]), [ws[-1]]), control=ws[:-1], control_values=cv)]
+                else:
+                    ops = [qp.MultiControlledX(wires=ws, control_values=cv), g17.one_q(qp, rng, g17.pick(rng, wires), rich=False),
+                           qp.MultiControlledX(wires=g17.some_wires(rng, wires, 4))]
+            else:
+                ops = single_op(qp, rng, g17, gen, wires) if single else circuit(qp, rng, g17, gen, wires)
             tape = qp.tape.QuantumScript(ops, [qp.expval(qp.Z(ops[0].wires[0] if len(ops[0].wires) else wires[0]))])
-            graph = bool(rng.random() < 0.55)
+            graph = bool(rng.random() < 0.55) or workwires
             gs, gs_name = gate_sets(qp, rng, graph)
+            if workwires:
+                gs, gs_name = [({"Toffoli", "CNOT", "X", "H", "T", "Adjoint(T)", "S", "Adjoint(S)", "RZ", "RY", "RX", "GlobalPhase", "CZ"}, "ww-toffoli"),
+                               ({"Toffoli", "CNOT", "RX", "RY", "RZ", "GlobalPhase"}, "ww-toffoli-rot"),
+                               ({"TemporaryAND", "Adjoint(TemporaryAND)", "Toffoli", "CNOT", "X", "H", "T", "Adjoint(T)", "S", "Adjoint(S)", "RZ", "RY", "GlobalPhase", "CZ", "MidMeasureMP"}, "ww-elbow"),
+                               ]["012".index(str(int(rng.integers(3))))]
             if isinstance(gs, dict) and not graph and gs_name == "weighted":
                 gs = set(gs)
             gset = {canon(x) for x in gs}
@@ -528,8 +550,8 @@ def run(ctx):
                 strict = False
                 opts["strict"] = False
             nww = 0
-            if graph and rng.random() < 0.5:
-                nww = [0, 1, 2, None][int(rng.integers(4))]
+            if graph and (rng.random() < 0.5 or workwires):
+                nww = [0, 1, 2, None, 3, 1][int(rng.integers(6 if workwires else 4))]
                 opts["num_work_wires"] = nww
                 if rng.random() < 0.3:
                     opts["minimize_work_wires"] = True
@@ -626,10 +648,13 @@ def run(ctx):
             msg = str(e)
             documented = (isinstance(e, (DecompositionError, qp.operation.DecompositionUndefinedError))
                           or (isinstance(e, RecursionError) and "Reached recursion limit" in msg)
+                          # the documented infinite-loop failure sometimes surfaces from the operator constructor as a RuntimeError
+                          # with its own recursion-depth message (same situation, counted separately in evidence)
+                          or (t == "RuntimeError" and "Maximum recursion depth reached" in msg)
                           or (err_type is not None and isinstance(e, err_type))
                           or (api == "preprocess" and err_type is None and t == "DeviceError"))
             if documented:
-                ctx.reject(f"{'graph' if graph else 'legacy'}:{t}")
+                ctx.reject(f"{'graph' if graph else 'legacy'}:{t}" + (":recursion-depth" if t == "RuntimeError" else ""))
                 ctx.case(fp, nontrivial=False, cls=f"{api}:{'graph' if graph else 'legacy'}")
             else:
                 import traceback
